@@ -494,6 +494,11 @@ static int retrieve_addr(int fd, int (*socknamefn)(int, struct sockaddr *,
 	strncpy(name, addr.sun_path + 1, name_len - 1);
         name[name_len - 1] = '\0';
     } else {
+	/* a maximum-length pathname is returned with its terminating
+	   NUL counted in addr_len (and a foreign socket may be bound to
+	   an unterminated 108-byte path) */
+	if (name_len > UX_NAME_MAX)
+	    name_len = UX_NAME_MAX;
 	strncpy(name, addr.sun_path, name_len);
         name[name_len] = '\0';
     }
